@@ -487,7 +487,10 @@ class HydrodynamicsTemplateModel:
             vpSignChangeWp = (self.mu*(1-vm**2*(1-self.nu))-np.sqrt(sqrtDisc))/(
                 2*vm*self.nu*(self.mu-1))
             if not np.isnan(vpSignChangeWp):
-                if vpMin < vpSignChangeWp < vpMax:
+                # The new upper end must lie inside the bracket. Comparing it (rather than
+                # the sign-change point itself) with vpMax also covers the case where the
+                # sign change coincides with vpMax (equal sound speeds), up to rounding.
+                if vpMin < vpSignChangeWp-1e-10 < vpMax:
                     vpMax = vpSignChangeWp-1e-10
 
         try:
